@@ -130,30 +130,71 @@ func runC35(c *core.Check) {
 	if vb := mustFunc(c, "d2compiler", "compiler", "validateBoardLinks"); vb != nil {
 		info := vb.Pkg.TypesInfo
 		fl := core.NewFlow(vb.Pkg, vb.Decl.Body)
-		linkF := structField(c.P, "d2graph", "Object", "Link")
-		drops := map[string]bool{}
-		ast.Inspect(vb.Decl.Body, func(nd ast.Node) bool {
-			as, ok := nd.(*ast.AssignStmt)
-			if !ok || len(as.Lhs) != 1 || core.FieldOf(info, as.Lhs[0]) != linkF || !core.IsNil(info, as.Rhs[0]) {
-				return true
+		classify := func(s string, isTrue bool, drops map[string]bool) {
+			switch {
+			case strings.HasPrefix(s, "hasBoard(") && !isTrue:
+				drops["missing"] = true
+			case strings.Contains(s, "slices.Equal(") && isTrue && strings.Contains(s, "IDA()"):
+				drops["self"] = true
+			case strings.Contains(s, `"root"`) && ((strings.Contains(s, "!=") && isTrue) || (strings.Contains(s, "==") && !isTrue)):
+				drops["non-root"] = true
 			}
-			for _, g := range fl.GuardsOfNode(as) {
-				for _, at := range g.Atoms() {
-					s := exprStr(at.Cond)
-					switch {
-					case strings.HasPrefix(s, "hasBoard(") && !at.True:
-						drops["missing"] = true
-					case strings.Contains(s, "slices.Equal(") && at.True && strings.Contains(s, "IDA()"):
-						drops["self"] = true
-					case strings.Contains(s, `"root"`) && ((strings.Contains(s, "!=") && at.True) || (strings.Contains(s, "==") && !at.True)):
-						drops["non-root"] = true
+		}
+		// the element kinds whose Link is cleared: objects, and connections
+		for _, owner := range []string{"Object", "Edge"} {
+			linkF := structField(c.P, "d2graph", owner, "Link")
+			if owner == "Edge" && linkF == nil {
+				// Link of a connection lives in the embedded Attributes
+				linkF = structField(c.P, "d2graph", "Attributes", "Link")
+			}
+			drops := map[string]bool{}
+			nclear := 0
+			ast.Inspect(vb.Decl.Body, func(nd ast.Node) bool {
+				as, ok := nd.(*ast.AssignStmt)
+				if !ok || len(as.Lhs) != 1 || !core.IsNil(info, as.Rhs[0]) {
+					return true
+				}
+				sel, ok := ast.Unparen(as.Lhs[0]).(*ast.SelectorExpr)
+				if !ok || sel.Sel.Name != "Link" {
+					return true
+				}
+				if t := info.TypeOf(sel.X); t == nil || !strings.HasSuffix(t.String(), "d2graph."+owner) {
+					return true
+				}
+				nclear++
+				for _, g := range fl.GuardsOfNode(as) {
+					for _, at := range g.Atoms() {
+						classify(exprStr(at.Cond), at.True, drops)
+						// `!keep(…)`: the tests under which the helper answers false
+						if call, ok := ast.Unparen(at.Cond).(*ast.CallExpr); ok && !at.True {
+							if callee := core.CalleeOf(info, call); callee != nil && callee.Pkg() == vb.Pkg.Types {
+								if h := c.P.Decl(callee); h != nil && h.Decl.Body != nil {
+									hfl := core.NewFlow(h.Pkg, h.Decl.Body)
+									for _, ex := range hfl.Exits() {
+										if ex.Ret == nil || len(ex.Ret.Results) != 1 || exprStr(ex.Ret.Results[0]) != "false" {
+											continue
+										}
+										for _, hg := range hfl.GuardsOf(ex.Blk) {
+											for _, ha := range hg.Atoms() {
+												classify(exprStr(ha.Cond), ha.True, drops)
+											}
+										}
+									}
+								}
+							}
+						}
 					}
 				}
+				return true
+			})
+			_ = linkF
+			for _, k := range []string{"non-root", "missing", "self"} {
+				key := "validateBoardLinks:drop-" + k
+				if owner == "Edge" {
+					key = "validateBoardLinks:connections:drop-" + k
+				}
+				c.Decide(drops[k] && nclear > 0, "C35.validate", key, vb.Decl.Pos(), "Link = nil under that test", "validateBoardLinks no longer clears "+strings.ToLower(owner)+" links of kind `"+k+"`: the diagram keeps a link that does not lead to another existing board")
 			}
-			return true
-		})
-		for _, k := range []string{"non-root", "missing", "self"} {
-			c.Decide(drops[k], "C35.validate", "validateBoardLinks:drop-"+k, vb.Decl.Pos(), "obj.Link = nil under that test", "validateBoardLinks no longer clears links of kind `"+k+"`: the diagram keeps a link that does not lead to another existing board")
 		}
 		kinds := map[string]bool{}
 		ast.Inspect(vb.Decl.Body, func(nd ast.Node) bool {
